@@ -141,12 +141,15 @@ def run(family, tier, seed, prop, only=None):
             funcs = m["functions"]
             base = dict(prop=prop, engine="S", functions=funcs, bounds=m["bounds"],
                         assumptions=m["assumptions"], sample=m["sample"])
-            if m["closed"] and m["closed"] != "syntactic":
+            if m["closed"] and m["closed"] not in ("syntactic", "normal-form"):
                 return common.ob(m["id"], verdict="inconclusive", detail=m["closed"], nontrivial=False, **base)
-            if m["closed"] == "syntactic":
-                # the normal forms of both sides coincide: nothing left for the solver
-                return common.ob(m["id"], verdict="holds", solver="normal form (encoder)", nontrivial=False,
-                                 queries=0, detail="closed by normalisation", **base)
+            if m["closed"] in ("syntactic", "normal-form"):
+                # both sides are the same term / have the same normal form: the residual query is `false`
+                # ("syntactic": the two computations produced the very same hash-consed term, which says
+                # little; "normal-form": different terms, equal as polynomials over GF(p))
+                return common.ob(m["id"], verdict="holds", solver="encoder normal form (residual query trivially unsat)",
+                                 nontrivial=(m["closed"] == "normal-form"), queries=0,
+                                 detail="closed by %s" % m["closed"], **base)
             path = os.path.join(outdir, m["smt"])
             # L rendering first (monomials opaque: unsat there is unsat of the exact query);
             # anything else is re-asked on the exact nonlinear rendering N. Each query goes to
